@@ -18,8 +18,8 @@ if $applied; then
     (cd $W/clean/seeds/$N && timeout 600 bash ./build_demo.sh $W/clean) > $W/demo_clean.txt 2>&1; demo_clean=$?
     (cd $W/tree/seeds/$N && timeout 600 bash ./build_demo.sh $W/tree) > $W/demo_mut.txt 2>&1; demo_mut=$?
     # some demo scripts print the demo's status ("exit code: N") instead of passing it on
-    e=$(grep -o "^exit code: [0-9]*" $W/demo_clean.txt | tail -1 | cut -d' ' -f3); [ -n "$e" ] && [ "$demo_clean" = 0 ] && demo_clean=$e
-    e=$(grep -o "^exit code: [0-9]*" $W/demo_mut.txt | tail -1 | cut -d' ' -f3); [ -n "$e" ] && [ "$demo_mut" = 0 ] && demo_mut=$e
+    e=$(grep -o "^exit code: [0-9]*\|^exit=[0-9]*" $W/demo_clean.txt | tail -1 | grep -o "[0-9]*$"); [ -n "$e" ] && [ "$demo_clean" = 0 ] && demo_clean=$e
+    e=$(grep -o "^exit code: [0-9]*\|^exit=[0-9]*" $W/demo_mut.txt | tail -1 | grep -o "[0-9]*$"); [ -n "$e" ] && [ "$demo_mut" = 0 ] && demo_mut=$e
   fi
 fi
 res=""
